@@ -3,28 +3,42 @@ package main
 // Part D — ResponseCapture (and the Log middleware that reports its fields).
 //
 // Alphabet of handler operations on the writer it is given: WriteHeader(200), WriteHeader(404),
-// WriteHeader(500), Write(""), Write("a"), Write("hello"), Flush (when the writer is a Flusher),
-// and the informational / upgrade codes WriteHeader(100), (102), (103), (101).
-// Bound: every sequence of length 0..3 over the 11 operations (thorough: 0..5 over the first
-// seven, 0..4 over all eleven) — this contains "WriteHeader then k writes", "k writes only",
+// WriteHeader(500), Write of 0 / 1 / 5 bytes, Flush (when the writer is a Flusher), the
+// informational / upgrade codes WriteHeader(100), (102), (103), (101) and the statuses that do
+// not allow a body, WriteHeader(204), (304).
+// Bound: every sequence of length 0..3 over the 13 operations (thorough: 0..5 over the first
+// seven, 0..4 over all) — this contains "WriteHeader then k writes", "k writes only",
 // "nothing", "WriteHeader twice", "Flush", "1xx then final", "several 1xx then final", "1xx then
-// Write without WriteHeader", "101 alone" and all their mixtures.
+// Write without WriteHeader", "101 alone", "204/304 then a body" and all their mixtures.
 // Observation points: direct (CaptureResponse around a recorder), log (the Log middleware's
 // "status"/"bytes" values), server / server-log (the same two behind a real net/http server
 // and client). httptest.ResponseRecorder does not model informational responses (it takes the
-// first WriteHeader, 1xx included, as the status), so every sequence containing a 1xx/101
-// operation is observed over the real server — in the quick tier too; sequences without one
-// use the recorder (and, thorough, the real server as well).
+// first WriteHeader, 1xx included, as the status) nor the refusal of a body after 204/304, so
+// every sequence containing such an operation is observed over the real server — in the quick
+// tier too; sequences without one use the recorder (and, thorough, the real server as well).
+// The underlying ResponseWriter is part of the explored environment:
+//   - short writers (model, in process): a writer that accepts k bytes in total and then nothing
+//     (the connection broke after k bytes) for every cut-off point k in 0..n, n = the bytes the
+//     sequence tries to write, and a writer that accepts at most k bytes of each call for every
+//     k in 0..(longest write); every sequence of length 0..3 (thorough 0..4) over modelOps,
+//     observed directly and through the Log middleware;
+//   - refusals produced by net/http itself (real server and client): bodies written after
+//     WriteHeader(204) / (304) / 1xx, and writes beyond a Content-Length the handler declared
+//     (menu declaredLengths) — every sequence of length 0..3 (thorough 0..4) over the ops.
+//     A spy between the capture and net/http's writer records what each Write returned.
 // Oracle: StatusCode / ContentLength equal the final status and the number of body bytes
-// actually put out (what the recorder / the real client saw). When the handler itself never
-// committed a final status (nothing, or only 1xx) the status is not asserted; after a 101 the
-// connection is no longer HTTP and the byte count is not asserted.
+// actually put out: ContentLength == the sum of the counts the underlying writer returned ==
+// what the recorder / the real client received. When the handler itself never committed a
+// final status (nothing, or only 1xx) the status is not asserted; after a 101 the connection
+// is no longer HTTP: the byte count is compared with what net/http's writer accepted only.
 
 import (
 	"encoding/json"
 	"fmt"
+	"io"
 	"net/http"
 	"net/http/httptest"
+	"strconv"
 	"strings"
 	"sync"
 
@@ -33,66 +47,188 @@ import (
 	"verif/core"
 )
 
-var captureOps = []string{"WH200", "WH404", "WH500", "W0", "W1", "W5", "FL", "WH100", "WH102", "WH103", "WH101"}
+// WH<code> = WriteHeader(code), W<n> = Write of n bytes, FL = Flush.
+var captureOps = []string{"WH200", "WH404", "WH500", "W0", "W1", "W5", "FL", "WH100", "WH102", "WH103", "WH101", "WH204", "WH304"}
 
 const plainOps = 7 // captureOps[:plainOps] are the operations the recorder models faithfully
 
+// modelOps is the handler alphabet against the short-writer models (W12: a longer write, so
+// that a cut-off can fall inside, at the edge of and between writes).
+var modelOps = []string{"WH200", "WH404", "WH500", "W0", "W1", "W5", "W12", "FL"}
+
+// declaredOps is the handler alphabet when the handler declared a Content-Length first.
+var declaredOps = []string{"WH200", "WH404", "WH204", "WH304", "WH103", "W0", "W1", "W5", "FL"}
+
+// declaredLengths: 0 (every byte is beyond), 3 (W1 W1 W1 fills it, W5 overruns), 5 (= W5),
+// 6 (= W5 W1 = W1 W5).
+var declaredLengths = []int{0, 3, 5, 6}
+
 func isInformational(op string) bool { return op == "WH100" || op == "WH102" || op == "WH103" }
 
+// needsRealServer: the sequence contains an operation whose effect only net/http produces
+// (informational / upgrade responses, statuses that do not allow a body).
 func needsRealServer(ops []string) bool {
 	for _, op := range ops {
-		if isInformational(op) || op == "WH101" {
+		if isInformational(op) || op == "WH101" || op == "WH204" || op == "WH304" {
 			return true
 		}
 	}
 	return false
 }
 
+// writerModel is a model of the environment under the capture: a writer that accepts fewer
+// bytes than it is given. Kind "total": K bytes are accepted over the whole response, then
+// none (broken connection); kind "percall": at most K bytes of every call are accepted.
+type writerModel struct {
+	Kind string `json:"kind"`
+	K    int    `json:"k"`
+}
+
 type captureCase struct {
-	Via string   `json:"via"` // direct | log | server | server-log
-	Ops []string `json:"ops"`
+	Via      string       `json:"via"` // direct | log | server | server-log
+	Ops      []string     `json:"ops"`
+	Declared *int         `json:"declared,omitempty"` // Content-Length header the handler sets before the operations
+	Writer   *writerModel `json:"writer,omitempty"`   // direct | log: the writer under the capture (nil: httptest.ResponseRecorder)
 }
 
-// spyWriter sits under the capture and tells whether anything reached the real writer.
+func (cs captureCase) key() string {
+	k := strings.Join(cs.Ops, ",")
+	if cs.Declared != nil {
+		k += "|cl=" + strconv.Itoa(*cs.Declared)
+	}
+	if cs.Writer != nil {
+		k += fmt.Sprintf("|%s=%d", cs.Writer.Kind, cs.Writer.K)
+	}
+	return k
+}
+
+// acceptLog is what a spy under the capture saw: calls made, bytes offered to Write and the
+// sum of the counts Write returned.
+type acceptLog struct{ calls, attempted, accepted int }
+
+// spyWriter sits under the capture, in front of a recorder.
 type spyWriter struct {
-	rec   *httptest.ResponseRecorder
-	calls int
+	rec *httptest.ResponseRecorder
+	acceptLog
 }
 
-func (s *spyWriter) Header() http.Header         { return s.rec.Header() }
-func (s *spyWriter) WriteHeader(code int)        { s.calls++; s.rec.WriteHeader(code) }
-func (s *spyWriter) Write(b []byte) (int, error) { s.calls++; return s.rec.Write(b) }
-func (s *spyWriter) Flush()                      { s.calls++; s.rec.Flush() }
+func (s *spyWriter) Header() http.Header  { return s.rec.Header() }
+func (s *spyWriter) WriteHeader(code int) { s.calls++; s.rec.WriteHeader(code) }
+func (s *spyWriter) Write(b []byte) (int, error) {
+	s.calls++
+	n, err := s.rec.Write(b)
+	s.attempted += len(b)
+	s.accepted += n
+	return n, err
+}
+func (s *spyWriter) Flush() { s.calls++; s.rec.Flush() }
+
+// wireSpy sits under the capture, in front of the real net/http response writer.
+type wireSpy struct {
+	http.ResponseWriter
+	acceptLog
+}
+
+func (s *wireSpy) WriteHeader(code int) { s.calls++; s.ResponseWriter.WriteHeader(code) }
+func (s *wireSpy) Write(b []byte) (int, error) {
+	s.calls++
+	n, err := s.ResponseWriter.Write(b)
+	s.attempted += len(b)
+	s.accepted += n
+	return n, err
+}
+func (s *wireSpy) Flush() {
+	s.calls++
+	if f, ok := s.ResponseWriter.(http.Flusher); ok {
+		f.Flush()
+	}
+}
+
+// shortWriter is the model writer: like net/http it puts the status out with the first
+// WriteHeader(final) / Write / Flush; it keeps the bytes it accepted.
+type shortWriter struct {
+	hdr    http.Header
+	m      writerModel
+	status int
+	body   []byte
+	acceptLog
+}
+
+func (s *shortWriter) Header() http.Header { return s.hdr }
+func (s *shortWriter) commit(code int) {
+	if s.status == 0 {
+		s.status = code
+	}
+}
+func (s *shortWriter) WriteHeader(code int) { s.calls++; s.commit(code) }
+func (s *shortWriter) Flush()               { s.calls++; s.commit(200) }
+func (s *shortWriter) Write(b []byte) (int, error) {
+	s.calls++
+	s.commit(200)
+	n := len(b)
+	switch s.m.Kind {
+	case "total":
+		if room := s.m.K - s.accepted; n > room {
+			n = room
+		}
+	case "percall":
+		if n > s.m.K {
+			n = s.m.K
+		}
+	}
+	if n < 0 {
+		n = 0
+	}
+	s.body = append(s.body, b[:n]...)
+	s.attempted += len(b)
+	s.accepted += n
+	if n < len(b) {
+		return n, io.ErrShortWrite
+	}
+	return n, nil
+}
+
+const payload = "hello, world. hello, world. hello, world."
 
 func applyOps(w http.ResponseWriter, ops []string) {
 	for _, op := range ops {
-		switch op {
-		case "WH200":
-			w.WriteHeader(200)
-		case "WH404":
-			w.WriteHeader(404)
-		case "WH500":
-			w.WriteHeader(500)
-		case "WH100":
-			w.WriteHeader(100)
-		case "WH102":
-			w.WriteHeader(102)
-		case "WH103":
-			w.WriteHeader(103)
-		case "WH101":
-			w.WriteHeader(101)
-		case "W0":
-			_, _ = w.Write([]byte{})
-		case "W1":
-			_, _ = w.Write([]byte("a"))
-		case "W5":
-			_, _ = w.Write([]byte("hello"))
-		case "FL":
+		switch {
+		case op == "FL":
 			if f, ok := w.(http.Flusher); ok {
 				f.Flush()
 			}
+		case strings.HasPrefix(op, "WH"):
+			if code, err := strconv.Atoi(op[2:]); err == nil {
+				w.WriteHeader(code)
+			}
+		case strings.HasPrefix(op, "W"):
+			if n, err := strconv.Atoi(op[1:]); err == nil && n <= len(payload) {
+				_, _ = w.Write([]byte(payload[:n]))
+			}
 		}
 	}
+}
+
+// attemptedBytes is the number of body bytes the sequence offers to Write.
+func attemptedBytes(ops []string) (total, longest int) {
+	for _, op := range ops {
+		if strings.HasPrefix(op, "W") && !strings.HasPrefix(op, "WH") {
+			n, _ := strconv.Atoi(op[1:])
+			total += n
+			if n > longest {
+				longest = n
+			}
+		}
+	}
+	return
+}
+
+// handle is the handler of a case: declare the length (if any), then perform the operations.
+func (cs captureCase) handle(w http.ResponseWriter) {
+	if cs.Declared != nil {
+		w.Header().Set("Content-Length", strconv.Itoa(*cs.Declared))
+	}
+	applyOps(w, cs.Ops)
 }
 
 // recLogger records log lines; notify (optional) receives one token per line.
@@ -134,24 +270,45 @@ type captureObs struct {
 	Status, Bytes int  // what ResponseCapture / the log line reports
 	Committed     bool // something reached the underlying writer / the wire
 	WroteStatus   int  // status actually written
-	WroteBytes    int  // body bytes actually written
+	WroteBytes    int  // body bytes actually written (recorder / model: kept by the writer; server: received by the client)
 	BytesUnknown  bool // 101: the body is not an HTTP body any more
+	Attempted     int  // body bytes the capture offered to the underlying writer
+	Accepted      int  // sum of the counts the underlying writer's Write returned
+	Truncated     bool // server: the client's read ended before the declared length
+}
+
+// under builds the writer under the capture for the in-process observation points and returns
+// a function reading what it saw.
+func (cs captureCase) under() (http.ResponseWriter, func(o *captureObs)) {
+	if cs.Writer != nil {
+		sw := &shortWriter{hdr: http.Header{}, m: *cs.Writer}
+		return sw, func(o *captureObs) {
+			o.Committed, o.WroteStatus, o.WroteBytes = sw.calls > 0, sw.status, len(sw.body)
+			o.Attempted, o.Accepted = sw.attempted, sw.accepted
+		}
+	}
+	spy := &spyWriter{rec: httptest.NewRecorder()}
+	return spy, func(o *captureObs) {
+		o.Committed, o.WroteStatus, o.WroteBytes = spy.calls > 0, spy.rec.Code, spy.rec.Body.Len()
+		o.Attempted, o.Accepted = spy.attempted, spy.accepted
+	}
 }
 
 func execCapture(cs captureCase) (captureObs, error) {
 	var o captureObs
 	switch cs.Via {
 	case "direct":
-		spy := &spyWriter{rec: httptest.NewRecorder()}
-		rc := httpm.CaptureResponse(spy)
-		applyOps(rc, cs.Ops)
-		o = captureObs{Reported: true, Status: rc.StatusCode, Bytes: rc.ContentLength, Committed: spy.calls > 0, WroteStatus: spy.rec.Code, WroteBytes: spy.rec.Body.Len()}
+		w, read := cs.under()
+		rc := httpm.CaptureResponse(w)
+		cs.handle(rc)
+		o = captureObs{Reported: true, Status: rc.StatusCode, Bytes: rc.ContentLength}
+		read(&o)
 	case "log":
-		spy := &spyWriter{rec: httptest.NewRecorder()}
+		under, read := cs.under()
 		lg := &recLogger{}
-		h := httpm.Log(lg)(http.HandlerFunc(func(w http.ResponseWriter, r *http.Request) { applyOps(w, cs.Ops) }))
-		h.ServeHTTP(spy, httptest.NewRequest("GET", "/capture", nil))
-		o = captureObs{Committed: spy.calls > 0, WroteStatus: spy.rec.Code, WroteBytes: spy.rec.Body.Len()}
+		h := httpm.Log(lg)(http.HandlerFunc(func(w http.ResponseWriter, r *http.Request) { cs.handle(w) }))
+		h.ServeHTTP(under, httptest.NewRequest("GET", "/capture", nil))
+		read(&o)
 		st, ok1 := lg.last("status")
 		by, ok2 := lg.last("bytes")
 		si, ok3 := st.(int)
@@ -222,12 +379,58 @@ func checkCapture(cs captureCase) (fails []failure, outcome string) {
 				fmt.Sprintf("ResponseCapture reports status %d, status actually written is %d [case %s]", o.Status, o.WroteStatus, desc)})
 		}
 	}
-	if !o.BytesUnknown && o.Bytes != o.WroteBytes {
-		fails = append(fails, failure{
-			fmt.Sprintf("capture via=%s field=bytes committed-by=%s after-1xx=%v", cs.Via, first, after1xx),
-			fmt.Sprintf("ResponseCapture reports %d bytes, %d bytes were actually written [case %s]", o.Bytes, o.WroteBytes, desc)})
+	// refusal: why the underlying writer took fewer bytes than it was offered (observed)
+	refusal := "none"
+	if o.Accepted < o.Attempted {
+		switch {
+		case cs.Writer != nil:
+			refusal = "short-write"
+		case o.WroteStatus == 204 || o.WroteStatus == 304 || o.WroteStatus == 101:
+			refusal = "status-without-body"
+		case cs.Declared != nil && o.Attempted > *cs.Declared:
+			refusal = "beyond-content-length"
+		default:
+			refusal = "other"
+		}
 	}
-	return fails, fmt.Sprintf("capture via=%s committed-by=%s after-1xx=%v later-writeheader=%v wrote-status=%d body-empty=%v", cs.Via, first, after1xx, laterWH, o.WroteStatus*b2i(o.Committed), o.WroteBytes == 0)
+	env := ""
+	if cs.Writer != nil {
+		env = " writer=short-" + cs.Writer.Kind
+	}
+	if cs.Declared != nil {
+		env += " content-length=declared"
+	}
+	{
+		// the three counts of the statement: reported == accepted by the underlying writer ==
+		// received. accepted != received would be the environment contradicting itself (never
+		// observed in the explored space; it is an outcome class, not a verdict on goa). After a
+		// 101 the client cannot read an HTTP body: only reported == accepted is judged (net/http
+		// refuses body writes through the ResponseWriter after 101).
+		sent := o.WroteBytes
+		if o.BytesUnknown {
+			sent = o.Accepted
+		} else if o.Accepted != o.WroteBytes {
+			refusal += "+accepted-differs-from-received"
+			sent = o.Accepted
+		}
+		if o.Bytes != sent {
+			sig := fmt.Sprintf("capture via=%s field=bytes committed-by=%s after-1xx=%v", cs.Via, first, after1xx)
+			if refusal != "none" {
+				// the underlying writer refused bytes: the class is the environment and the
+				// refusal, not how the status was committed
+				dir := "fewer-than-sent"
+				if o.Bytes > sent {
+					dir = "more-than-sent"
+				}
+				sig = fmt.Sprintf("capture via=%s field=bytes%s refusal=%s reported=%s", cs.Via, env, refusal, dir)
+			} else if env != "" {
+				sig += env
+			}
+			fails = append(fails, failure{sig,
+				fmt.Sprintf("ResponseCapture reports %d bytes; %d bytes were offered to the underlying writer, it accepted %d, %d were actually written/received [case %s]", o.Bytes, o.Attempted, o.Accepted, o.WroteBytes, desc)})
+		}
+	}
+	return fails, fmt.Sprintf("capture via=%s%s committed-by=%s after-1xx=%v later-writeheader=%v wrote-status=%d body-empty=%v refusal=%s truncated=%v", cs.Via, env, first, after1xx, laterWH, o.WroteStatus*b2i(o.Committed), o.WroteBytes == 0, refusal, o.Truncated)
 }
 
 func b2i(b bool) int {
@@ -237,32 +440,49 @@ func b2i(b bool) int {
 	return 0
 }
 
-// runCaptureVia enumerates every sequence of length 0..maxLen over captureOps[:nops]; filter
-// (may be nil) selects the sequences observed at this point.
-func runCaptureVia(c *core.Ctx, via string, nops, maxLen int, filter func(ops []string) bool) int64 {
+// captureVariant is one environment under which every sequence is observed.
+type captureVariant struct {
+	Declared *int
+	// writers returns the writer models for a sequence (nil entry = recorder); nil func = recorder only
+	writers func(ops []string) []*writerModel
+}
+
+// runCaptureVia enumerates every sequence of length 0..maxLen over ops; filter (may be nil)
+// selects the sequences observed at this point.
+func runCaptureVia(c *core.Ctx, via string, ops []string, maxLen int, filter func(ops []string) bool, v captureVariant) int64 {
 	var cases int64
 	for n := 0; n <= maxLen; n++ {
-		core.Sequences(nops, n, func(seq []int) bool {
-			ops := make([]string, len(seq))
+		core.Sequences(len(ops), n, func(seq []int) bool {
+			sel := make([]string, len(seq))
 			for i, k := range seq {
-				ops[i] = captureOps[k]
+				sel[i] = ops[k]
 			}
-			if filter != nil && !filter(ops) {
+			if filter != nil && !filter(sel) {
 				return true
 			}
-			cs := captureCase{Via: via, Ops: ops}
-			first, _, _ := committedBy(ops)
-			c.State("capture:"+via+":"+strings.Join(ops, ","), first != "nothing")
-			fails, outcome := checkCapture(cs)
-			c.Exec(1)
-			noteOutcome(c, outcome)
-			cases++
-			if cases%61 == 0 {
-				c.Sample(replayCase{Part: "capture", Capture: &cs})
+			writers := []*writerModel{nil}
+			if v.writers != nil {
+				writers = v.writers(sel)
 			}
-			if len(fails) > 0 {
-				cc := cs
-				report(c, fails, replayCase{Part: "capture", Capture: &cc}, func() []failure { f, _ := checkCapture(cc); return f })
+			for _, wm := range writers {
+				cs := captureCase{Via: via, Ops: sel, Declared: v.Declared, Writer: wm}
+				first, _, _ := committedBy(sel)
+				c.State("capture:"+via+":"+cs.key(), first != "nothing")
+				fails, outcome := checkCapture(cs)
+				if outcome == "error" {
+					c.HarnessError("capture case %s via %s: %s", cs.key(), via, fails[0].What)
+					return false
+				}
+				c.Exec(1)
+				noteOutcome(c, outcome)
+				cases++
+				if cases%199 == 0 {
+					c.Sample(replayCase{Part: "capture", Capture: &cs})
+				}
+				if len(fails) > 0 {
+					cc := cs
+					report(c, fails, replayCase{Part: "capture", Capture: &cc}, func() []failure { f, _ := checkCapture(cc); return f })
+				}
 			}
 			return !c.Expired()
 		})
@@ -270,28 +490,60 @@ func runCaptureVia(c *core.Ctx, via string, nops, maxLen int, filter func(ops []
 	return cases
 }
 
+// shortWriters: every cut-off point of a writer that breaks after k bytes (k in 0..n, n = the
+// bytes the sequence offers; k = n is the writer that never refuses) and every per-call cap k
+// in 0..longest write. A sequence that offers no byte gets one writer of each kind.
+func shortWriters(ops []string) []*writerModel {
+	total, longest := attemptedBytes(ops)
+	var out []*writerModel
+	for k := 0; k <= total; k++ {
+		out = append(out, &writerModel{Kind: "total", K: k})
+	}
+	for k := 0; k <= longest; k++ {
+		out = append(out, &writerModel{Kind: "percall", K: k})
+	}
+	return out
+}
+
 func runCapture(c *core.Ctx) {
 	defer closeCaptureServer()
-	plainLen, allLen := 3, 3
+	plainLen, allLen, modelLen, declLen := 3, 3, 3, 3
 	if c.Thorough() {
-		plainLen, allLen = 5, 4
+		plainLen, allLen, modelLen, declLen = 5, 4, 4, 4
 	}
-	var cases int64
+	var cases, modelCases, declCases int64
 	for _, via := range []string{"direct", "log"} {
-		cases += runCaptureVia(c, via, plainOps, plainLen, nil)
+		cases += runCaptureVia(c, via, captureOps[:plainOps], plainLen, nil, captureVariant{})
+		// the short-writer models under the capture
+		n := runCaptureVia(c, via, modelOps, modelLen, nil, captureVariant{writers: shortWriters})
+		modelCases += n
+		cases += n
 	}
-	// sequences with informational / upgrade codes: only a real server shows the final status
+	// sequences with informational / upgrade / no-body codes: only a real server shows the
+	// final status and refuses the body
 	serverFilter := needsRealServer
 	if c.Thorough() {
 		serverFilter = nil // thorough: every sequence also over the real server
 	}
 	for _, via := range []string{"server", "server-log"} {
-		cases += runCaptureVia(c, via, len(captureOps), allLen, serverFilter)
+		cases += runCaptureVia(c, via, captureOps, allLen, serverFilter, captureVariant{})
+		// the handler declared a Content-Length first
+		for _, d := range declaredLengths {
+			n := runCaptureVia(c, via, declaredOps, declLen, nil, captureVariant{Declared: intp(d)})
+			declCases += n
+			cases += n
+		}
 	}
 	if c.Expired() {
 		c.Incomplete("capture: deadline reached")
 	}
 	c.Note("capture_cases", cases)
-	c.Note("capture_bounds", fmt.Sprintf("ops %v: every sequence of length 0..%d over the first %d via direct and via Log (recorder); every sequence of length 0..%d over all %d that %s via a real server (capture and Log)",
-		captureOps, plainLen, plainOps, allLen, len(captureOps), map[bool]string{true: "exists", false: "contains a 1xx/101 operation"}[c.Thorough()]))
+	c.Note("capture_cases_short_writer_models", modelCases)
+	c.Note("capture_cases_declared_content_length", declCases)
+	c.Note("capture_bounds", fmt.Sprintf("ops %v: every sequence of length 0..%d over the first %d via direct and via Log (recorder); every sequence of length 0..%d over all %d that %s via a real server (capture and Log), a spy under the capture recording what net/http's Write returned",
+		captureOps, plainLen, plainOps, allLen, len(captureOps), map[bool]string{true: "exists", false: "contains a 1xx/101/204/304 operation"}[c.Thorough()]))
+	c.Note("capture_short_writer_bounds", fmt.Sprintf("model writers under the capture, via direct and via Log: every sequence of length 0..%d over %v x {writer that accepts k bytes in total then nothing, every k in 0..n (n = bytes the sequence offers); writer that accepts at most k bytes per call, every k in 0..longest write}; a refused Write returns the count it took and io.ErrShortWrite",
+		modelLen, modelOps))
+	c.Note("capture_declared_bounds", fmt.Sprintf("real net/http server and client, via capture and via Log: handler sets Content-Length to each of %v, then every sequence of length 0..%d over %v (writes beyond the declared length and after 204/304 are refused by net/http, shorter bodies end in a truncated read at the client)",
+		declaredLengths, declLen, declaredOps))
 }
